@@ -326,7 +326,7 @@ def run(tier, seed):
     assert lr1.selftest()
     bin_ = core.build_lalrpop()
     base = core.seed_for("C03", seed) % (2 ** 31)
-    n = {"quick": (1000, 600, 500, 800, 900), "thorough": (60000, 30000, 10000, None, 30000)}[tier]
+    n = {"quick": (1000, 600, 500, 800, 900), "thorough": (12000, 6000, 4000, None, 8000)}[tier]
     specs = []
     wr = chk.work
     for rules in tiny_space():
